@@ -184,7 +184,7 @@ Proof.
   intros Hs Hprep Hexp Hidx. unfold st_load, store_call, empty_state, set_store.
   cbn [st_fail st_kind st_facts st_tindex st_pindex st_store st_hooks st_calls st_amb].
   destruct k.
-  - set (s1 := mkState Indexed [] [] pn_empty F hooks 1 None false).
+  - set (s1 := mkState Indexed [] [] pn_empty F hooks 1 None false []).
     assert (HP : P s1).
     { unfold P, st_wf, Idx_sup. subst s1. cbn [st_kind st_facts st_tindex st_store map].
       repeat split; try reflexivity; try exact Hs. intros id fact t Hl. discriminate. }
@@ -246,7 +246,7 @@ Qed.
 
 Lemma st_load_indexed_unfold hooks store now :
   st_load Indexed hooks store now =
-  load_idx (mkState Indexed [] [] pn_empty store hooks 1 None false) store now.
+  load_idx (mkState Indexed [] [] pn_empty store hooks 1 None false []) store now.
 Proof. reflexivity. Qed.
 
 Theorem load_facts_prepared hooks store now s' r :
@@ -363,7 +363,7 @@ Qed.
 (** * 6. The Linear kind does not look at the records at load time *)
 
 Lemma load_linear hooks store now :
-  st_load Linear hooks store now = (mkState Linear store [] pn_empty store hooks 1 None false, Ok tt).
+  st_load Linear hooks store now = (mkState Linear store [] pn_empty store hooks 1 None false [], Ok tt).
 Proof. reflexivity. Qed.
 
 Definition expired_store : list (string * json) := [("a", JObj [("expires", JNum 5)])].
